@@ -390,7 +390,7 @@ func Gen(r *rand.Rand, o GenOpts) (int, int, []Op) {
 			}
 		case k < 93:
 			if !o.NoLock {
-				ops = append(ops, Op{K: "lock", X: r.IntN(cw), Y: r.IntN(ch), W: 1 + r.IntN(3), H: 1 + r.IntN(2), Lock: r.IntN(2) == 0})
+				ops = append(ops, Op{K: "lock", X: r.IntN(cw+3) - 2, Y: r.IntN(ch+2) - 1, W: 1 + r.IntN(4), H: 1 + r.IntN(3), Lock: r.IntN(2) == 0})
 			}
 		case k < 95:
 			sp := GenSpec(r, false)
